@@ -226,6 +226,18 @@ pub fn boundary_seeking(rng: &mut Rng) -> (i64, &'static str, i64) {
     }
 }
 
+/// Integer (base, exponent) pairs whose power lands next to a range boundary: the base is the
+/// exponent-th root of 2^63, 2^64, 2^62, 2^53 or 2^32, give or take two, with either sign - so the
+/// power is just inside i64, just outside it, or between 2^63 and 2^64 where an unsigned
+/// intermediate still fits (seeded change C06-r9: (-7000)^5 returned as a positive value).
+pub fn pow_boundary(rng: &mut Rng) -> (i64, u32) {
+    let e = 2 + rng.below(62) as u32;
+    let t: f64 = *rng.pick(&[9223372036854775808.0f64, 18446744073709551616.0, 4611686018427387904.0, 9007199254740992.0, 4294967296.0, 13835058055282163712.0][..]);
+    let r = t.powf(1.0 / e as f64).floor() as i64;
+    let b = (r + rng.range(-2, 3)).max(2);
+    (if rng.chance(1, 2) { -b } else { b }, e)
+}
+
 pub fn dec_text(d: &DecV) -> String {
     let digits = format!("{}", d.mant);
     let s = d.scale as usize;
@@ -976,4 +988,80 @@ pub fn rep_cap(config: &str) -> usize {
     } else {
         400
     }
+}
+
+// ---------------------------------------------------------------- shape family
+
+/// Three-level expressions `f(A op B)` over every one-argument function (and bracket, sign, postfix)
+/// of the evaluator, every arithmetic operator, and operand *shapes* - a literal, its square in the
+/// three spellings, a negated, a bracketed, a function of a literal - with values whose arithmetic
+/// rounds (0.1, 5.8, 1.5, 0.7) or over/underflows (1e200, 1e-200 spelled out): an evaluator that
+/// recognises a shape and takes a shortcut (sqrt(a²+b²) as hypot - seeded changes C05-r9, C20-r9 - a
+/// fused multiply-add, a strength-reduced power) computes something other than the tree says.
+/// Returns (context with `{h}` for the hole, E = `A op B`).
+pub fn shape_family(ev: Ev) -> Vec<(String, String)> {
+    let mut ctxs: Vec<String> = vec!["{h}".into(), "-{h}".into(), "({h})".into(), "{h}²".into(), "{h}^2".into(), "{h}*1".into(), "1*{h}".into(), "{h}^0.5".into()];
+    if ev == Ev::I64 {
+        ctxs.retain(|c| c != "{h}^0.5");
+    }
+    if has_floorceil_brackets(ev) {
+        ctxs.extend(["⌊{h}⌋".to_string(), "⌈{h}⌉".to_string()]);
+    }
+    if has_degrad(ev) {
+        ctxs.extend(["({h})°".to_string(), "({h})rad".to_string()]);
+    }
+    for (sp, f) in spellings_for(ev) {
+        match f.arity() {
+            Arity::One => ctxs.push(format!("{}({{h}})", sp)),
+            Arity::Two if matches!(f, Func::Pow | Func::Root | Func::Atan2 | Func::Log | Func::Mod) => {
+                ctxs.push(format!("{}({{h}},2)", sp));
+                ctxs.push(format!("{}(2,{{h}})", sp));
+            }
+            Arity::Var if matches!(f, Func::Max | Func::Avg | Func::Med) => ctxs.push(format!("{}({{h}},1)", sp)),
+            _ => {}
+        }
+    }
+    let vals: Vec<(&str, &str)> = match ev {
+        Ev::I64 => vec![("3", "4"), ("7", "2"), ("3037000500", "3"), ("12", "5")],
+        Ev::Cpx => vec![("0.1", "0.4"), ("5.8", "1.5"), ("2i", "0.7"), ("3", "4")],
+        Ev::Dec => vec![("0.1", "0.4"), ("5.8", "1.5"), ("3", "4"), ("0.0000000000000000000000000007", "3")],
+        _ => vec![
+            ("0.1", "0.4"),
+            ("5.8", "1.5"),
+            ("3", "4"),
+            ("0.7", "0.3"),
+            ("100000000000000000000000000000000000000000000000000000000000000000000000000000000000000000000000000000000000000000000000000000000000000000000000000000000000000000000000000000000000000000000000000000000", "100000000000000000000000000000000000000000000000000000000000000000000000000000000000000000000000000000000000000000000000000000000000000000000000000000000000000000000000000000000000000000000000000000000"),
+            ("0.00000000000000000000000000000000000000000000000000000000000000000000000000000000000000000000000000000000000000000000000000000000000000000000000000000000000000000000000000000000000000000000000000000001", "0.00000000000000000000000000000000000000000000000000000000000000000000000000000000000000000000000000000000000000000000000000000000000000000000000000000000000000000000000000000000000000000000000000000001"),
+        ],
+    };
+    let mut shapes: Vec<&str> = vec!["{v}", "{v}^2", "{v}²", "pow({v},2)", "(-{v})", "({v})", "abs({v})", "{v}^3", "2*{v}", "{v}/3"];
+    if Func::Sqrt.available(ev) {
+        shapes.push("sqrt({v})");
+    }
+    if ev != Ev::I64 && ev != Ev::Dec {
+        shapes.push("exp({v})");
+    }
+    let mut ops: Vec<&str> = vec!["+", "-", "*", "/"];
+    if has_fact_mod(ev) {
+        ops.push("%");
+    }
+    let mut out = vec![];
+    for (va, vb) in &vals {
+        for a in &shapes {
+            for b in &shapes {
+                // keep the family affordable: the second operand takes every shape only against the
+                // plain and squared first operands, otherwise it mirrors the first
+                if !(a.starts_with("{v}") && (*a == "{v}" || a.ends_with("^2") || a.ends_with('²'))) && a != b && *a != "pow({v},2)" {
+                    continue;
+                }
+                for op in &ops {
+                    let e = format!("{}{}{}", a.replace("{v}", va), op, b.replace("{v}", vb));
+                    for c in &ctxs {
+                        out.push((c.clone(), e.clone()));
+                    }
+                }
+            }
+        }
+    }
+    out
 }
